@@ -1207,7 +1207,9 @@ fn exchange(a: f64, a2: f64, b: f64, c: f64, p: f64) -> Vec<f64> {
 fn generic_systems(thorough: bool) -> Vec<GenSys> {
     let mut v = vec![];
     let k = |name: &'static str, db: bool, eps: f64| KSpec { name, db, compose: None, eps };
-    let eps_loop: f64 = std::env::var("KERN_EPS").ok().and_then(|s| s.parse().ok()).unwrap_or(1e-4);
+    let eps_env: Option<f64> = std::env::var("KERN_EPS").ok().and_then(|s| s.parse().ok());
+    // one operator: the draw tree of a loop is a caterpillar, 1e-11 costs a few hundred nodes; more operators: heavy tails
+    let eps_for = |l: usize| eps_env.unwrap_or(if l == 1 { 1e-11 } else { 1e-3 });
     // (1) exchange-type 2-site matrix with loop updates
     for l in if thorough { vec![1usize, 2, 3] } else { vec![1usize, 2] } {
         v.push(GenSys {
@@ -1216,7 +1218,7 @@ fn generic_systems(thorough: bool) -> Vec<GenSys> {
             beta: 1.0,
             l,
             heatbath: false,
-            kern: vec![k("diag", l == 1, 0.0), k("loop", true, eps_loop), k("free", true, 0.0)],
+            kern: vec![k("diag", l == 1, 0.0), k("loop", true, eps_for(l)), k("free", true, 0.0)],
             loops_flag: true,
         });
     }
@@ -1228,7 +1230,7 @@ fn generic_systems(thorough: bool) -> Vec<GenSys> {
             beta: 0.5,
             l,
             heatbath: false,
-            kern: vec![k("diag", l == 1, 0.0), k("loop", true, eps_loop), k("free", true, 0.0)],
+            kern: vec![k("diag", l == 1, 0.0), k("loop", true, eps_for(l)), k("free", true, 0.0)],
             loops_flag: true,
         });
     }
@@ -1279,7 +1281,7 @@ fn generic_systems(thorough: bool) -> Vec<GenSys> {
         beta: 1.0,
         l: 2,
         heatbath: true,
-        kern: vec![k("diag", false, 0.0), k("loop", true, eps_loop), k("free", true, 0.0)],
+        kern: vec![k("diag", false, 0.0), k("loop", true, eps_for(2)), k("free", true, 0.0)],
         loops_flag: true,
     });
     v
